@@ -9,7 +9,8 @@ CASE_TYPE = 'C15_case'
 VERDICT = 'C15_verdict'
 PROPS_FILE = 'theories/Props/C15.v'
 THEOREM = 'C15_load_is_spec'
-RULE = ('random world descriptions written to a JSON file and loaded through a '
+RULE = ('three ways of loading (55% file, 25% custom handle, 20% direct dictionary). FILE: '
+        'random world descriptions written to a JSON file and loaded through a '
         'WorldFromFileHandle placed 1-3 maps deep in a real ResourceMap: 0-3 processors, '
         '0-4 entities with 0-3 components, ids absent/null/int (overlapping the automatic '
         'range)/string, args and kwargs present/absent/empty, argument values arbitrary JSON; '
@@ -20,7 +21,16 @@ RULE = ('random world descriptions written to a JSON file and loaded through a '
         'inside, nested lists/objects containing marker strings), the rest plain JSON; 5% of '
         'the cases contain one open-form string whose prefix match does not resolve (aborted '
         'load).  Doubles record constructor arguments, processors, entities, dispatch_enabled '
-        'and, after enabling, the callback log.  distinct = different (case, trace); '
+        'and, after enabling, the callback log.  HANDLE: a plain WorldHandle (inside the tree, '
+        'or detached when it reads no file) whose transform_functions deque holds, in random '
+        'order, default_processors_transformer (70%), 0-3 marking user functions, and 1-2 '
+        'populating functions: a WorldFromFileTransformer with a custom pass list (half default, '
+        'else any list with one type pass and 0-3 object/resource passes in any order, '
+        'repetitions included) reading its own file, or a user function calling '
+        'populate_world_from_dict with real classes.  DIRECT: populate_world_from_dict called '
+        '1-2 times on a World with dispatching enabled or disabled (second call = world that '
+        'already has entities/processors); arguments include real objects and strings of all '
+        'marker forms (never substituted).  distinct = different (case, trace); '
         'non-trivial = loaded, >= 2 constructor calls and >= 1 exact reference')
 TRUSTED = [
     'Coq 8.16.1 kernel + vm_compute (evaluation of C15_verdict on the observed loads)',
@@ -184,49 +194,116 @@ def _gen_dict(rng, tname, ns, tree, tags):
     return d
 
 
-def gen_case(rng, abort=False):
+PASS_NAMES = {'type': 'PType', 'obj': 'PObj', 'res': 'PRes'}
+
+
+class _Ids:
+    """mirror of the documented id rule, to keep given ids unused"""
+
+    def __init__(self):
+        self.used, self.nxt = [], 1
+
+    def entity(self, rng, e):
+        r = rng.random()
+        if r < 0.4:
+            given = 'absent'
+        elif r < 0.5:
+            given = None
+            e['id'] = None
+        else:
+            cands = [1, 2, 3, 4, 5, 0, -3, 10 ** 12, 'hero', '1', '', 'x y', '2', 6, 7]
+            cands = [c for c in cands if not any(c == u and type(c) is type(u) for u in self.used)]
+            given = rng.choice(cands)
+            e['id'] = given
+        if given in ('absent', None):
+            while any(self.nxt == u and type(u) is int for u in self.used):
+                self.nxt += 1
+            eid = self.nxt
+            self.nxt += 1
+        else:
+            eid = given
+        if e.get('components'):
+            self.used.append(eid)
+
+
+def _gen_desc(rng, ns, tree, tags, procs, ids, direct=False):
+    """one description; procs = the processor classes it may list"""
+    comps = [n for n, s in ns if s[0] == 'comp']
+    objs = [n for n, s in ns if s[0] in ('obj', 'ns', 'comp', 'proc')]
+
+    def gd(t):
+        d = _gen_dict(rng, t, ns, tree, tags)
+        if direct:           # real objects among the arguments
+            for k in range(len(d.get('args', []))):
+                if rng.random() < 0.15:
+                    d['args'][k] = {'__ref__': rng.choice(objs)}
+            for k in d.get('kwargs', {}):
+                if rng.random() < 0.15:
+                    d['kwargs'][k] = {'__ref__': rng.choice(objs)}
+        return d
+    desc = {}
+    if rng.random() < 0.85:
+        desc['processors'] = [gd(t) for t in procs]
+    if rng.random() < 0.95:
+        ents = []
+        for _ in range(rng.randint(0, 4)):
+            e = {}
+            if rng.random() < 0.85:
+                e['components'] = [gd(t) for t in rng.sample(comps, rng.randint(0, min(3, len(comps))))]
+            ids.entity(rng, e)
+            ents.append(e)
+        desc['entities'] = ents
+    return desc
+
+
+def _gen_passes(rng):
+    if rng.random() < 0.5:
+        return ['type', 'obj', 'res']
+    ps = [rng.choice(['obj', 'res']) for _ in range(rng.randint(0, 3))]
+    ps.insert(rng.randint(0, len(ps)), 'type')
+    return ps
+
+
+def gen_case(rng, abort=False, kind=None):
     ns = _gen_ns(rng)
     tree = _gen_tree(rng)
     tags = dict(exact_obj=0, exact_res=0, exact_handle=0, lookalike=0, plain=0, abort=0)
-    comps = [n for n, s in ns if s[0] == 'comp']
     procs = [n for n, s in ns if s[0] == 'proc']
-    desc = {}
-    if rng.random() < 0.85:
-        desc['processors'] = [_gen_dict(rng, t, ns, tree, tags)
-                              for t in rng.sample(procs, rng.randint(0, len(procs)))]
-    if rng.random() < 0.95:
-        ents = []
-        used, nxt = [], 1
-        for _ in range(rng.randint(0, 4)):
-            e = {}
-            r = rng.random()
-            if r < 0.85:
-                e['components'] = [_gen_dict(rng, t, ns, tree, tags)
-                                   for t in rng.sample(comps, rng.randint(0, min(3, len(comps))))]
-            r = rng.random()
-            if r < 0.4:
-                given = 'absent'
-            elif r < 0.5:
-                given = None
-                e['id'] = None
+    ids = _Ids()
+    if kind is None:
+        r = rng.random()
+        kind = 'file' if r < 0.55 else 'handle' if r < 0.8 else 'direct'
+    case = dict(ns=ns, tree=tree, depth=rng.randint(1, 3), kind=kind, tags=tags)
+    if kind == 'file':
+        case['desc'] = _gen_desc(rng, ns, tree, tags, rng.sample(procs, rng.randint(0, len(procs))), ids)
+        descs = [case['desc']]
+    else:
+        rng.shuffle(procs)
+        npop = rng.randint(1, 2)
+        cut = rng.randint(0, len(procs))
+        shares = [procs[:cut], procs[cut:]] if npop == 2 else [procs[:cut]]
+        steps, descs = [], []
+        for sh in shares:
+            if kind == 'direct' or rng.random() < 0.4:
+                d = _gen_desc(rng, ns, tree, tags, sh, ids, direct=True)
+                steps.append(['dict', d])
             else:
-                cands = [1, 2, 3, 4, 5, 0, -3, 10 ** 12, 'hero', '1', '', 'x y', '2']
-                cands = [c for c in cands if c not in used]
-                given = rng.choice(cands)
-                e['id'] = given
-            if given in ('absent', None) and not (given == 'absent' and False):
-                while nxt in used:
-                    nxt += 1
-                eid = nxt
-                nxt += 1
-            else:
-                eid = given
-            if e.get('components'):
-                used.append(eid)
-            ents.append(e)
-        desc['entities'] = ents
-    if abort:
+                d = _gen_desc(rng, ns, tree, tags, sh, ids)
+                steps.append(['file', _gen_passes(rng), d])
+                descs.append(d)
+        if kind == 'handle':
+            if rng.random() < 0.7:
+                steps.insert(rng.randint(0, len(steps)), ['default'])
+            for k in range(rng.randint(0, 3)):
+                steps.insert(rng.randint(0, len(steps)), ['mark', k])
+            if not any(st[0] == 'file' for st in steps) and rng.random() < 0.5:
+                case['depth'] = 0            # a handle that is in no resource tree
+        else:
+            case['enabled'] = rng.random() < 0.5
+        case['steps'] = steps
+    if abort and descs:
         # one open-form string whose prefix match names nothing: the load is aborted
+        desc = rng.choice(descs)
         ds = list(desc.get('processors', [])) + [c for e in desc.get('entities', [])
                                                   for c in e.get('components', [])]
         if ds:
@@ -234,7 +311,7 @@ def gen_case(rng, abort=False):
             d.setdefault('args', []).append(rng.choice(
                 ['${%s.o0}}' % MOD, '${zq}x}', '$res{r1}}', '$res{zq}tail', '${}}']))
             tags['abort'] += 1
-    return dict(ns=ns, tree=tree, depth=rng.randint(1, 3), desc=desc, tags=tags)
+    return case
 
 
 def gen(rng, tier):
@@ -369,16 +446,83 @@ def run(case):
         ident[id(m)] = ['KMap', i]
         keep.append(m)
 
+    def pydict(desc):
+        """the dictionary populate_world_from_dict receives: real classes and objects"""
+        def val(v):
+            if isinstance(v, dict) and list(v) == ['__ref__']:
+                return objs[v['__ref__']]
+            return json.loads(json.dumps(v))
+
+        def dd(d):
+            out = {'type': objs[d['type']]}
+            if 'args' in d:
+                out['args'] = [val(x) for x in d['args']]
+            if 'kwargs' in d:
+                out['kwargs'] = {k: val(x) for k, x in d['kwargs'].items()}
+            return out
+        out = {}
+        if 'processors' in desc:
+            out['processors'] = [dd(d) for d in desc['processors']]
+        if 'entities' in desc:
+            out['entities'] = []
+            for e in desc['entities']:
+                pe = {}
+                if 'id' in e:
+                    pe['id'] = e['id']
+                if 'components' in e:
+                    pe['components'] = [dd(d) for d in e['components']]
+                out['entities'].append(pe)
+        return out
+
+    PASSES = {'type': desper.type_dict_transformer, 'obj': desper.object_dict_transformer,
+              'res': desper.resource_dict_transformer}
+    marks = []
+    kind = case.get('kind', 'file')
     tmp = tempfile.mkdtemp(prefix='c15_')
     try:
-        fn = os.path.join(tmp, 'world.json')
-        with open(fn, 'w') as f:
-            json.dump(case['desc'], f)
-        wh = desper.WorldFromFileHandle(fn)
-        root['/'.join(['wh%d' % i for i in range(case['depth'] - 1)] + ['world'])] = wh
+        def place(wh):
+            if case['depth'] > 0:
+                root['/'.join(['wh%d' % i for i in range(case['depth'] - 1)] + ['world'])] = wh
+
+        if kind == 'file':
+            fn = os.path.join(tmp, 'world.json')
+            with open(fn, 'w') as f:
+                json.dump(case['desc'], f)
+            wh = desper.WorldFromFileHandle(fn)
+            place(wh)
+        elif kind == 'handle':
+            wh = desper.WorldHandle()
+            place(wh)
+            for n, st in enumerate(case['steps']):
+                if st[0] == 'default':
+                    fun = desper.default_processors_transformer
+                elif st[0] == 'file':
+                    fn = os.path.join(tmp, 'world%d.json' % n)
+                    with open(fn, 'w') as f:
+                        json.dump(st[2], f)
+
+                    def fun(h, w, fn=fn, tr=desper.WorldFromFileTransformer([PASSES[x] for x in st[1]])):
+                        h.filename = fn
+                        tr(h, w)
+                elif st[0] == 'dict':
+                    def fun(h, w, d=pydict(st[1])):
+                        desper.populate_world_from_dict(w, d)
+                else:
+                    def fun(h, w, k=st[1]):
+                        marks.append([k, h, w])
+                wh.transform_functions.append(fun)
+        else:
+            wh = None
         state['wh'] = wh
         try:
-            world = wh()
+            if kind == 'direct':
+                world = desper.World()
+                world.dispatch_enabled = case['enabled']
+                state['world'] = world
+                for st in case['steps']:
+                    desper.populate_world_from_dict(world, pydict(st[1]))
+            else:
+                world = wh()
         except Exception as ex:
             return {'err': type(ex).__name__, 'nconstr': len(log)}
         state['world'] = world
@@ -422,6 +566,7 @@ def run(case):
                 canon_cbs.append(c)
         canon_cbs += sorted(runl, key=lambda x: x[0])
         out['cbs'] = canon_cbs
+        out['marks'] = [[k, h is wh and w is world] for k, h, w in marks]
         out['loads'] = [[i, root.get(p).loads] for i, (p, k) in enumerate(case['tree']) if k == 'h']
         return out
     finally:
@@ -443,9 +588,17 @@ def _keys_of(v, acc):
             _keys_of(x, acc)
 
 
+def _descs(case):
+    if case.get('kind', 'file') == 'file':
+        return [case['desc']]
+    return [st[-1] for st in case['steps'] if st[0] in ('file', 'dict')]
+
+
 def key_table(case):
     acc = set()
-    _keys_of(case['desc'], acc)
+    for d in _descs(case):
+        _keys_of(d, acc)
+    acc.discard('__ref__')
     for name, spec in case['ns']:
         if spec[0] == 'val':
             _keys_of(spec[1], acc)
@@ -456,8 +609,10 @@ def s_(text):
     return lst([z(ord(c)) for c in text])
 
 
-def enc_json(v, kt):
+def enc_json(v, kt, refs=None):
     """a JSON value of the description -> val"""
+    if refs is not None and isinstance(v, dict) and list(v) == ['__ref__']:
+        return refs[v['__ref__']]
     if v is None:
         return 'JNull'
     if v is True or v is False:
@@ -469,9 +624,9 @@ def enc_json(v, kt):
     if isinstance(v, str):
         return '(JStr %s)' % s_(v)
     if isinstance(v, list):
-        return '(JList %s)' % lst([enc_json(x, kt) for x in v])
+        return '(JList %s)' % lst([enc_json(x, kt, refs) for x in v])
     if isinstance(v, dict):
-        return '(JObj %s)' % lst(['(%s, %s)' % (z(kt.get(k, -1)), enc_json(x, kt))
+        return '(JObj %s)' % lst(['(%s, %s)' % (z(kt.get(k, -1)), enc_json(x, kt, refs))
                                   for k, x in v.items()])
     raise ValueError('not JSON: %r' % (v,))
 
@@ -495,11 +650,19 @@ def enc_canon(c, kt):
     return '(JRef %s %s)' % (c[1], z(c[2]))
 
 
-def enc_dict(d, kt):
-    args = opt(lst([enc_json(x, kt) for x in d['args']])) if 'args' in d else 'None'
-    kw = (opt(lst(['(%s, %s)' % (z(kt[k]), enc_json(x, kt)) for k, x in d['kwargs'].items()]))
+def enc_dict(d, kt, refs=None):
+    args = opt(lst([enc_json(x, kt, refs) for x in d['args']])) if 'args' in d else 'None'
+    kw = (opt(lst(['(%s, %s)' % (z(kt[k]), enc_json(x, kt, refs)) for k, x in d['kwargs'].items()]))
           if 'kwargs' in d else 'None')
     return '(DD %s %s %s)' % (s_(d['type']), args, kw)
+
+
+def _refs(case):
+    out = {}
+    for serial, (name, spec) in enumerate(case['ns']):
+        if spec[0] != 'val':
+            out[name] = '(JRef %s %s)' % ('KNoCopy' if spec[0] in ('mod', 'pkg') else 'KObj', z(serial))
+    return out
 
 
 def enc_env(case, kt):
@@ -524,14 +687,14 @@ def enc_env(case, kt):
     return '(Env %s %s %s)' % (lst(ns), lst(tree), z(case['depth']))
 
 
-def enc_desc(case, kt):
-    d = case['desc']
-    procs = opt(lst([enc_dict(x, kt) for x in d['processors']])) if 'processors' in d else 'None'
+def enc_desc(d, kt, refs=None):
+    procs = (opt(lst([enc_dict(x, kt, refs) for x in d['processors']]))
+             if 'processors' in d else 'None')
     if 'entities' in d:
         es = []
         for e in d['entities']:
             i = opt(enc_json(e['id'], kt)) if 'id' in e else 'None'
-            cs = (opt(lst([enc_dict(x, kt) for x in e['components']]))
+            cs = (opt(lst([enc_dict(x, kt, refs) for x in e['components']]))
                   if 'components' in e else 'None')
             es.append('(ED %s %s)' % (i, cs))
         ents = opt(lst(es))
@@ -540,7 +703,26 @@ def enc_desc(case, kt):
     return '(DS %s %s)' % (procs, ents)
 
 
-REJECT = '(OOk (WO [] [] [] true [CB (-7) 0 JNull false]))'   # hang / crash: never accepted
+def enc_load(case, kt):
+    kind = case.get('kind', 'file')
+    if kind == 'file':
+        return '(LFile %s)' % enc_desc(case['desc'], kt)
+    steps = []
+    for st in case['steps']:
+        if st[0] == 'default':
+            steps.append('SDefault')
+        elif st[0] == 'file':
+            steps.append('(SFile %s %s)' % (lst([PASS_NAMES[x] for x in st[1]]), enc_desc(st[2], kt)))
+        elif st[0] == 'dict':
+            steps.append('(SDict %s)' % enc_desc(st[1], kt, _refs(case)))
+        else:
+            steps.append('(SMark %s)' % z(st[1]))
+    if kind == 'handle':
+        return '(LHandle %s)' % lst(steps)
+    return '(LDirect %s %s)' % (b(case['enabled']), lst(steps))
+
+
+REJECT = '(OOk (WO [] [] [] true [CB (-7) 0 JNull false] [((-7), false)]))'   # hang / crash: never accepted
 
 
 def enc_obs(trace, kt):
@@ -555,20 +737,23 @@ def enc_obs(trace, kt):
     ents = ['(%s, %s)' % (enc_canon(i, kt), lst([z(x) for x in cs])) for i, cs in trace['ents']]
     cbs = ['(CB %s %s %s %s)' % (z(i), z(k), enc_canon(e, kt), b(ok))
            for i, k, e, ok in trace['cbs']]
-    return '(OOk (WO %s %s %s %s %s))' % (lst(cons), lst([z(x) for x in trace['procs']]),
-                                          lst(ents), b(trace['enabled']), lst(cbs))
+    marks = ['(%s, %s)' % (z(k), b(ok)) for k, ok in trace.get('marks', [])]
+    return '(OOk (WO %s %s %s %s %s %s))' % (lst(cons), lst([z(x) for x in trace['procs']]),
+                                             lst(ents), b(trace['enabled']), lst(cbs), lst(marks))
 
 
 def encode(case, trace):
     kt = key_table(case)
-    return '(Case %s %s %s)' % (enc_env(case, kt), enc_desc(case, kt), enc_obs(trace, kt))
+    return '(Case %s %s %s)' % (enc_env(case, kt), enc_load(case, kt), enc_obs(trace, kt))
 
 
 # ------------------------------------------------------------------ evidence
 def _dicts(case):
-    d = case['desc']
-    return list(d.get('processors', [])) + [c for e in d.get('entities', [])
-                                            for c in e.get('components', [])]
+    out = []
+    for d in _descs(case):
+        out += list(d.get('processors', [])) + [c for e in d.get('entities', [])
+                                               for c in e.get('components', [])]
+    return out
 
 
 def nontrivial(case, trace):
@@ -583,23 +768,41 @@ def stats(cases, traces):
         for k, v in c.get('tags', {}).items():
             tot[k] = tot.get(k, 0) + v
     out = dict(arguments_by_form=tot)
+    kinds, passes, steps = {}, {}, dict(default=0, file=0, dict=0, mark=0)
+    for c in cases:
+        k = c.get('kind', 'file')
+        if k == 'direct':
+            k = 'direct_enabled' if c['enabled'] else 'direct_disabled'
+        kinds[k] = kinds.get(k, 0) + 1
+        for st in c.get('steps', []):
+            steps[st[0]] += 1
+            if st[0] == 'file':
+                key = ','.join(st[1])
+                passes[key] = passes.get(key, 0) + 1
+    out['load_kinds'] = kinds
+    out['steps_of_custom_loads'] = steps
+    out['custom_pass_lists'] = passes
+    out['detached_handles'] = sum(1 for c in cases if c['depth'] == 0)
     out['loads_aborted'] = sum(1 for t in traces if 'err' in t)
     out['constructor_calls'] = sum(len(t.get('constr', [])) for t in traces)
     out['entities'] = sum(len(t.get('ents', [])) for t in traces)
     out['callbacks'] = sum(len(t.get('cbs', [])) for t in traces)
     ids = dict(absent=0, null=0, int=0, str=0)
+    nproc = 0
     for c in cases:
-        for e in c['desc'].get('entities', []):
-            if 'id' not in e:
-                ids['absent'] += 1
-            elif e['id'] is None:
-                ids['null'] += 1
-            elif isinstance(e['id'], int):
-                ids['int'] += 1
-            else:
-                ids['str'] += 1
+        for d in _descs(c):
+            nproc += len(d.get('processors', []))
+            for e in d.get('entities', []):
+                if 'id' not in e:
+                    ids['absent'] += 1
+                elif e['id'] is None:
+                    ids['null'] += 1
+                elif isinstance(e['id'], int):
+                    ids['int'] += 1
+                else:
+                    ids['str'] += 1
     out['entity_ids'] = ids
-    out['processors_listed'] = sum(len(c['desc'].get('processors', [])) for c in cases)
+    out['processors_listed'] = nproc
     return out
 
 
@@ -607,41 +810,60 @@ def _copy(case):
     return json.loads(json.dumps(case))
 
 
-def shrink(case):
-    d = case['desc']
-    for i in range(len(d.get('entities', []))):
-        c = _copy(case)
-        del c['desc']['entities'][i]
-        yield c
-    for i in range(len(d.get('processors', []))):
-        c = _copy(case)
-        del c['desc']['processors'][i]
-        yield c
-    for i, e in enumerate(d.get('entities', [])):
-        for j in range(len(e.get('components', []))):
-            c = _copy(case)
-            del c['desc']['entities'][i]['components'][j]
-            yield c
-        if 'id' in e:
-            c = _copy(case)
-            del c['desc']['entities'][i]['id']
-            yield c
+def _desc_getters(case):
+    if case.get('kind', 'file') == 'file':
+        return [lambda c: c['desc']]
+    return [(lambda c, n=n: c['steps'][n][-1]) for n, st in enumerate(case['steps'])
+            if st[0] in ('file', 'dict')]
 
-    def dict_variants(get):
-        dd = get(case)
-        for j in range(len(dd.get('args', []))):
-            c = _copy(case)
-            del get(c)['args'][j]
+
+def shrink(case):
+    for n in range(len(case.get('steps', []))):
+        c = _copy(case)
+        del c['steps'][n]
+        if c['steps'] or c['kind'] == 'handle':
             yield c
-        for k in list(dd.get('kwargs', {})):
+    for n, st in enumerate(case.get('steps', [])):
+        if st[0] == 'file' and st[1] != ['type', 'obj', 'res']:
             c = _copy(case)
-            del get(c)['kwargs'][k]
+            c['steps'][n][1] = ['type', 'obj', 'res']
             yield c
-    for i in range(len(d.get('processors', []))):
-        yield from dict_variants(lambda c, i=i: c['desc']['processors'][i])
-    for i, e in enumerate(d.get('entities', [])):
-        for j in range(len(e.get('components', []))):
-            yield from dict_variants(lambda c, i=i, j=j: c['desc']['entities'][i]['components'][j])
+    for get in _desc_getters(case):
+        d = get(case)
+        for i in range(len(d.get('entities', []))):
+            c = _copy(case)
+            del get(c)['entities'][i]
+            yield c
+        for i in range(len(d.get('processors', []))):
+            c = _copy(case)
+            del get(c)['processors'][i]
+            yield c
+        for i, e in enumerate(d.get('entities', [])):
+            for j in range(len(e.get('components', []))):
+                c = _copy(case)
+                del get(c)['entities'][i]['components'][j]
+                yield c
+            if 'id' in e:
+                c = _copy(case)
+                del get(c)['entities'][i]['id']
+                yield c
+
+        def dict_variants(getd):
+            dd = getd(case)
+            for j in range(len(dd.get('args', []))):
+                c = _copy(case)
+                del getd(c)['args'][j]
+                yield c
+            for k in list(dd.get('kwargs', {})):
+                c = _copy(case)
+                del getd(c)['kwargs'][k]
+                yield c
+        for i in range(len(d.get('processors', []))):
+            yield from dict_variants(lambda c, i=i, get=get: get(c)['processors'][i])
+        for i, e in enumerate(d.get('entities', [])):
+            for j in range(len(e.get('components', []))):
+                yield from dict_variants(
+                    lambda c, i=i, j=j, get=get: get(c)['entities'][i]['components'][j])
     if case['depth'] > 1:
         c = _copy(case)
         c['depth'] = 1
@@ -650,7 +872,6 @@ def shrink(case):
 
 def mutate(case, rng):
     """neighbourhood: replace one argument by a freshly generated one"""
-    import random
     for _ in range(200):
         c = _copy(case)
         ds = _dicts(c)
